@@ -6,11 +6,7 @@ use std::sync::Arc;
 use std::cmp::Ordering;
 use vstd::std_specs::iter::IteratorSpec;
 
-#[derive(PartialEq, Eq, PartialOrd, Ord, Hash)]
-pub struct Url { _p: u64 }
-impl Url { pub fn scheme(&self) -> &str { unimplemented!() } }
-impl Clone for Url { fn clone(&self) -> Self { unimplemented!() } }
-pub type ModuleSpecifier = Url;
+// (url::Url: prelude/url_foreign.rs)
 
 macro_rules! opaque { ($($n:ident),*) => { $( pub struct $n { _p: u64 } impl Clone for $n { fn clone(&self) -> Self { unimplemented!() } } )* } }
 opaque!(SystemTime, CacheInfo, ImportAttributes, SpecifierError, ResolveError, ModuleLoadError, JsErrorBox, WasmParseError, NpmPackageReqReference, FastCheckDiagnostic, FastCheckDtsModule);
@@ -45,32 +41,6 @@ impl<'a, K, V> Iterator for IndexMapIter<'a, K, V> { type Item = (&'a K, &'a V);
 impl<'a, K, V> IntoIterator for &'a IndexMap<K, V> { type Item = (&'a K, &'a V); type IntoIter = IndexMapIter<'a, K, V>; fn into_iter(self) -> IndexMapIter<'a, K, V> { unimplemented!() } }
 
 verus! {
-
-#[verifier::external_type_specification]
-#[verifier::external_body]
-pub struct ExUrl(Url);
-
-// Url's Eq/Ord/Hash are lawful (assumed: url::Url derives them from its serialization)
-pub proof fn axiom_url_laws()
-    ensures
-        vstd::laws_cmp::obeys_cmp_spec::<Url>(),
-        vstd::std_specs::hash::obeys_key_model::<Url>(),
-        vstd::std_specs::hash::obeys_key_model::<&Url>(),
-{ admit(); }
-
-// `==` / `!=` on Url compare values (assumed: derived PartialEq on the serialization)
-impl vstd::std_specs::cmp::PartialEqSpecImpl for Url {
-    open spec fn obeys_eq_spec() -> bool { true }
-    open spec fn eq_spec(&self, other: &Url) -> bool { *self == *other }
-}
-pub assume_specification[ <Url as PartialEq>::eq ](a: &Url, b: &Url) -> (r: bool)
-    ensures r == (*a == *b);
-
-pub uninterp spec fn url_scheme(u: Url) -> Seq<char>;
-pub assume_specification[ Url::scheme ](u: &Url) -> (s: &str)
-    ensures s@ == url_scheme(*u);
-pub assume_specification[ <Url as Clone>::clone ](u: &Url) -> (c: Url)
-    ensures c == *u;
 
 #[verifier::external_type_specification] #[verifier::external_body] pub struct ExSystemTime(SystemTime);
 #[verifier::external_type_specification] #[verifier::external_body] pub struct ExCacheInfo(CacheInfo);
